@@ -60,6 +60,11 @@ type Prop struct {
 	// HangSeconds: a worker whose progress file does not change for this long is
 	// killed and the announced trace is reported as a hang (0 = no watchdog).
 	HangSeconds int
+	// ReplayAttempts: how many fresh-process replays may be used to obtain the two
+	// reproductions a report needs (default 2 = both must reproduce). Larger only
+	// where a residual choice is outside the simulator's control (E4: Go's select
+	// among simultaneously ready cases uses the runtime's unseeded PRNG).
+	ReplayAttempts int
 	// KeepLastFault: a trace without faults means "enumerate every fault", so
 	// the minimiser must not drop the last explicit fault.
 	KeepLastFault bool
